@@ -34,6 +34,8 @@ enum Tamper {
 enum Case {
     Sequence { key: usize, ops: Vec<Op>, via_handshake: bool },
     Tamper { key: usize, len: usize, prior: usize, t: Tamper },
+    /// two live contexts (two session keys) taking turns on one thread: .0 of each op = which context
+    Interleaved { keys: (usize, usize), ops: Vec<(u8, Op)> },
 }
 
 pub struct C16 {
@@ -153,6 +155,8 @@ impl Prop for C16 {
         for key in [2usize, 1] {
             for via_handshake in [false, true] {
                 cs.push(Case::Sequence { key, ops: vec![Op::Wrap(1); 300], via_handshake });
+                // 66 000 messages in each direction on one context (the sequence number passes 2^16)
+                cs.push(Case::Sequence { key, ops: (0..132_000).map(|i| if i % 2 == 0 { Op::Wrap(i % 5) } else { Op::Unwrap(i % 3) }).collect(), via_handshake });
                 cs.push(Case::Sequence { key, ops: vec![Op::Unwrap(2); 300], via_handshake });
                 cs.push(Case::Sequence { key, ops: (0..600).map(|i| if i % 2 == 0 { Op::Wrap(3) } else { Op::Unwrap(0) }).collect(), via_handshake });
                 cs.push(Case::Sequence { key, ops: (0..520).map(|i| if i < 260 { Op::Unwrap(1) } else { Op::Wrap(1) }).collect(), via_handshake });
@@ -205,6 +209,39 @@ impl Prop for C16 {
                 }
             }
         }
+        // two contexts alive at the same time on one thread, taking turns: every sequence of <=4 (5 in thorough) operations
+        // over {A, B} x {wrap, unwrap} x len {1, 16}; each context is judged against its own reference
+        {
+            let mut alpha: Vec<(u8, Op)> = vec![];
+            for c in [0u8, 1] {
+                for l in [1usize, 16] {
+                    alpha.push((c, Op::Wrap(l)));
+                    alpha.push((c, Op::Unwrap(l)));
+                }
+            }
+            fn rec2(alpha: &[(u8, Op)], depth: usize, cur: &mut Vec<(u8, Op)>, out: &mut Vec<Vec<(u8, Op)>>) {
+                if cur.len() >= 2 {
+                    out.push(cur.clone());
+                }
+                if depth == 0 {
+                    return;
+                }
+                for o in alpha {
+                    cur.push(o.clone());
+                    rec2(alpha, depth - 1, cur, out);
+                    cur.pop();
+                }
+            }
+            let mut seqs = vec![];
+            rec2(&alpha, if tier == Tier::Quick { 4 } else { 5 }, &mut vec![], &mut seqs);
+            for keys in [(2usize, 3usize), (0, 1), (2, 2)] {
+                for s in &seqs {
+                    cs.push(Case::Interleaved { keys, ops: s.clone() });
+                }
+            }
+            // long turns: 300 rounds of A.wrap, B.wrap, A.unwrap, B.unwrap
+            cs.push(Case::Interleaved { keys: (2, 3), ops: (0..1200).map(|i| ((i % 2) as u8, if (i / 2) % 2 == 0 { Op::Wrap(i % 7) } else { Op::Unwrap(i % 5) })).collect() });
+        }
         self.cases = cs;
         Ok(())
     }
@@ -215,7 +252,7 @@ impl Prop for C16 {
         json!({"idx": idx, "case": self.cases[idx as usize], "keys": keys().iter().map(|k| hex(k)).collect::<Vec<_>>()})
     }
     fn rule(&self) -> String {
-        "cases: [sequence] every sequence of <=3 (<=4 thorough; thorough also every sequence of 5 and 6 operations with len in {0,1,16,256}) operations over {wrap(len), unwrap(peer-sealed len)} with len in {0,1,2,3,15,16,17,255,256,1000}, for 5 exported session keys, on the context built by the public constructor and (sequences <=2) on the one built by a real NEGOTIATE/CHALLENGE handshake (for every second session key the same Ntlm object has completed an earlier handshake, with another key, before): every wrap output must be byte-identical to reference MS-NLMP SEAL+SIGN with carried-over cipher state and sequence numbers, every unwrap must return the plaintext; every tampered message is refused, and refused again when presented a second time to the same context; plus long-lived contexts (300 wraps, 300 unwraps, 600 alternating, 260 unwraps then 260 wraps: the sequence numbers pass 256 in each direction) and messages of 65519..200000 bytes followed by further traffic; every length 0..1100 and 2^k-5..2^k+4 (k = 11..16) sealed / unsealed / both in one context; [tamper] for every peer-sealed message of length 0..17, 100, 256 at stream position 0 and 1: every single-bit flip, truncations, extensions by 1..3 bytes, reflection, rewritten sequence numbers: all must be rejected. Non-trivial: sequences of >=2 operations and all tamper cases.".into()
+        "cases: [sequence] every sequence of <=3 (<=4 thorough; thorough also every sequence of 5 and 6 operations with len in {0,1,16,256}) operations over {wrap(len), unwrap(peer-sealed len)} with len in {0,1,2,3,15,16,17,255,256,1000}, for 5 exported session keys, on the context built by the public constructor and (sequences <=2) on the one built by a real NEGOTIATE/CHALLENGE handshake (for every second session key the same Ntlm object has completed an earlier handshake, with another key, before): every wrap output must be byte-identical to reference MS-NLMP SEAL+SIGN with carried-over cipher state and sequence numbers, every unwrap must return the plaintext; contexts carrying 66 000 messages in each direction; every tampered message is refused (and when the alteration sits in the checksum, the sequence number or the ciphertext, the peer's next genuine message still unseals on a context that saw the same traffic), refused again when presented a second time to the same context, and so are a following message extended by 1 / 3 / 16 bytes or cut by one; two contexts (different or equal session keys) alive at the same time on one thread taking turns, every sequence of 2..4 (5 thorough) operations over {A, B} x {wrap, unwrap} x {1, 16} bytes and 300 rounds; plus long-lived contexts (300 wraps, 300 unwraps, 600 alternating, 260 unwraps then 260 wraps: the sequence numbers pass 256 in each direction) and messages of 65519..200000 bytes followed by further traffic; every length 0..1100 and 2^k-5..2^k+4 (k = 11..16) sealed / unsealed / both in one context; [tamper] for every peer-sealed message of length 0..17, 100, 256 at stream position 0 and 1: every single-bit flip, truncations, extensions by 1..3 bytes, reflection, rewritten sequence numbers: all must be rejected. Non-trivial: sequences of >=2 operations and all tamper cases.".into()
     }
     fn assumptions(&self) -> Vec<String> {
         vec![
@@ -225,7 +262,7 @@ impl Prop for C16 {
         ]
     }
     fn run_case(&mut self, idx: u64) -> Outcome {
-        match self.cases[idx as usize].clone() {
+        match crate::alloc::exempt(|| self.cases[idx as usize].clone()) {
             Case::Sequence { key, ops, via_handshake } => {
                 let k = keys()[key];
                 let mut lib = if via_handshake {
@@ -264,6 +301,36 @@ impl Prop for C16 {
                     }
                 }
                 Outcome::pass(if via_handshake { "sequence-handshake" } else { "sequence" }, ops.len() >= 2)
+            }
+            Case::Interleaved { keys: (ka, kb), ops } => {
+                let ks = [keys()[ka], keys()[kb]];
+                let mut libs = [lib_ctx(&ks[0]), lib_ctx(&ks[1])];
+                let mut c2s = [SealCtx::new(&ks[0], true), SealCtx::new(&ks[1], true)];
+                let mut s2c = [SealCtx::new(&ks[0], false), SealCtx::new(&ks[1], false)];
+                for (i, (c, op)) in ops.iter().enumerate() {
+                    let c = *c as usize;
+                    match op {
+                        Op::Wrap(len) => {
+                            let pt = plaintext(*len, i);
+                            let want = c2s[c].wrap(&pt);
+                            match libs[c].gss_wrapex(&pt) {
+                                Ok(got) if got == want => {}
+                                Ok(got) => return Outcome::fail("mismatch", "wrap-differs-from-ms-nlmp-with-another-context-alive", format!("op {} context {} wrap({}) after {:?}: got {}.. want {}..", i, c, len, &ops[..i.min(6)], hex(&got[..got.len().min(24)]), hex(&want[..want.len().min(24)]))),
+                                Err(e) => return Outcome::fail("mismatch", "wrap-error", format!("{:?}", e)),
+                            }
+                        }
+                        Op::Unwrap(len) => {
+                            let pt = plaintext(*len, i + 100);
+                            let sealed = s2c[c].wrap(&pt);
+                            match libs[c].gss_unwrapex(&sealed) {
+                                Ok(got) if got == pt => {}
+                                Ok(got) => return Outcome::fail("mismatch", "unwrap-wrong-plaintext", format!("op {} context {} unwrap({}): got {}..", i, c, len, hex(&got[..got.len().min(16)]))),
+                                Err(e) => return Outcome::fail("mismatch", "unwrap-rejects-conforming-peer-with-another-context-alive", format!("op {} context {} unwrap({}) after {:?}: {:?}", i, c, len, &ops[..i.min(6)], e)),
+                            }
+                        }
+                    }
+                }
+                Outcome::pass("interleaved-contexts", true)
             }
             Case::Tamper { key, len, prior, t } => {
                 let k = keys()[key];
@@ -312,8 +379,45 @@ impl Prop for C16 {
                 if msg == honest {
                     return Outcome::pass("tamper-noop", false);
                 }
+                // an alteration in a field that can only be judged after decryption (checksum, sequence number, ciphertext; same
+                // length as the genuine message) does not take the context out of step with its peer: on a second context that
+                // saw the same traffic, the peer's NEXT genuine message still unseals to its plaintext
+                if matches!(class, "flip-checksum" | "flip-seqnum" | "flip-ciphertext" | "seqnum") {
+                    let mut lib2 = lib_ctx(&k);
+                    let mut ref2 = SealCtx::new(&k, false);
+                    for p in 0..prior {
+                        let _ = lib2.gss_unwrapex(&ref2.wrap(&plaintext(5, p)));
+                    }
+                    let _ = ref2.wrap(&pt);
+                    if lib2.gss_unwrapex(&msg).is_err() {
+                        let next_pt = plaintext(len + 1, 12);
+                        let next = ref2.wrap(&next_pt);
+                        match lib2.gss_unwrapex(&next) {
+                            Ok(p) if p == next_pt => {}
+                            other => return Outcome::fail("mismatch", format!("genuine-message-refused-after-a-rejected-{}", class), format!("key {} len {} prior {} {:?}: the altered message was refused, then the peer's next genuine message: {}", key, len, prior, t, match other { Ok(p) => format!("wrong plaintext {}..", hex(&p[..p.len().min(16)])), Err(e) => format!("{:?}", e) })),
+                        }
+                    }
+                }
                 match lib.gss_unwrapex(&msg) {
                     Err(_) => {
+                        // what a peer could send next at this stream position, altered: a message of the same length sealed
+                        // with the same sequence number and the continuing key stream, extended by 1 / 3 / 16 bytes, or
+                        // cut by one byte — refused whatever the context kept of the forgery
+                        let mut again = ref_s2c.clone();
+                        again.seq = prior as u32;
+                        let next = again.wrap(&plaintext(len, 11));
+                        for ext in [1usize, 3, 16] {
+                            let mut m = next.clone();
+                            m.extend(std::iter::repeat(0x42).take(ext));
+                            if let Ok(p) = lib.gss_unwrapex(&m) {
+                                return Outcome::fail("mismatch", format!("extended-message-accepted-after-a-rejected-{}", class), format!("key {} len {} prior {} {:?}: after the refusal, a sealed message followed by {} more bytes was accepted, plaintext {}..", key, len, prior, t, ext, hex(&p[..p.len().min(16)])));
+                            }
+                        }
+                        if next.len() > 16 {
+                            if let Ok(p) = lib.gss_unwrapex(&next[..next.len() - 1]) {
+                                return Outcome::fail("mismatch", format!("truncated-message-accepted-after-a-rejected-{}", class), format!("key {} len {} prior {} {:?}: plaintext {}..", key, len, prior, t, hex(&p[..p.len().min(16)])));
+                            }
+                        }
                         // the same forgery presented again to the same context is refused again (a refusal must not
                         // teach the context to expect what it just refused)
                         match lib.gss_unwrapex(&msg) {
